@@ -342,13 +342,13 @@ def stepConstr (st : State) (name : Option String) (optional : Bool) (d : CDecl)
       if !st.active then fail st .attribute
       else if name.isSome && st.constrs.any (·.name == name) then fail st .value
       else
-        let c : Constr := { id := st.constrs.length, name, cls := className d, optional, operand := false, body := .residue }
+        let c : Constr := { id := st.constrs.length, name, cls := className d, optional, operand := false, body := .residue, refs := marks }
         fail ({ st with constrs := st.constrs ++ [c] }.markOperands marks) e
   | .body b marks =>
       if !st.active then fail st .attribute
       else if name.isSome && st.constrs.any (·.name == name) then fail st .value
       else
-        let c : Constr := { id := st.constrs.length, name, cls := className d, optional, operand := false, body := b }
+        let c : Constr := { id := st.constrs.length, name, cls := className d, optional, operand := false, body := b, refs := marks }
         let st' := ({ st with constrs := st.constrs ++ [c] }).markOperands marks
         match firstDup [] c.asserts 0 with
         | none => ok st'
